@@ -387,6 +387,8 @@ def object_case(c):
     nq, nz = len(eta[1]), len(eta[2])
     for t in range(c['nsteps']):
         rIdx, vIdx = rng.randrange(len(r)), rng.randrange(len(eta[3]))
+        if t == 1:
+            vIdx = rng.choice([0, len(eta[3]) - 1])                         # the longest displacement of the object
         if t == 0:
             f = np.full((nq, nz), 0.75)                                    # constants
         else:
@@ -400,7 +402,12 @@ def object_case(c):
         ref = gather_formula(sp, nz, frl(eta[1]), [frl(x) for x in cs], [int(x) for x in obj._shifts[rIdx, vIdx]],
                              frl(obj._thetaShifts[rIdx, vIdx]), frl(obj._lagrangeCoeffs[rIdx, vIdx]), twopi=2 * fr(math.pi))
         err = max(abs(fr(g[k, i]) - ref[k][i]) for k in range(nq) for i in range(nz))
-        out['steps'].append({'rIdx': rIdx, 'vIdx': vIdx, 'f': f.tolist(), 'cs': [x.tolist() for x in cs], 'out': g.tolist(),
+        # end-to-end reference that does not use the tables of the object: stencil, theta shifts and Lagrange
+        # weights of the property for the foot z - v*b_z*dt (the double zDist formed above), exact arithmetic
+        ssh, sts, slc = lag_pts_exact(fr(dz), fr(dtheta[rIdx]), fr(zDist[rIdx, vIdx]), fr(eta[2][1]))
+        ref2 = gather_formula(sp, nz, frl(eta[1]), [frl(x) for x in cs], ssh, sts, slc, twopi=2 * fr(math.pi))
+        err2 = max(abs(fr(g[k, i]) - ref2[k][i]) for k in range(nq) for i in range(nz))
+        out['steps'].append({'err_spec': float(err2), 'spec_shifts': [int(x) for x in ssh],'rIdx': rIdx, 'vIdx': vIdx, 'f': f.tolist(), 'cs': [x.tolist() for x in cs], 'out': g.tolist(),
                              'kind': 'const' if t == 0 else 'random', 'err_formula': float(err),
                              'ref': [[float(x) for x in row] for row in ref],
                              'ref_sha': hashlib.sha1(' '.join('%d/%d' % (x.numerator, x.denominator) for row in ref for x in row).encode()).hexdigest()})
@@ -483,8 +490,11 @@ def judge_object(chk, c, o, answers):
                     chk.cov['float_ambiguous'] = chk.cov.get('float_ambiguous', 0) + 1
                     continue
                 sign = 'negative' if zd < 0 else 'positive'
+                # a table that differs from the model's is a broken correspondence; the failing input, if there is
+                # one, is a step whose result leaves the field line (end-to-end stage below)
                 chk.violation('_getLagrangePts.shifts:%s-displacement' % sign,
-                              'stencil shifts %r but floor(zDist/dz)+(-2..3) = %r for zDist/dz = %.6g' % (csh, msh, float(q)), rep)
+                              'stencil shifts %r but floor(zDist/dz)+(-2..3) = %r for zDist/dz = %.6g' % (csh, msh, float(q)), rep,
+                              no_input=True)
                 continue
             tol_t = [2 * 2.0 ** -52 * abs(float(x)) + 1e-300 for x in mts]
             if any(abs(fr(x) - y) > tt for x, y, tt in zip(o['tss'][a][b], mts, tol_t)):
@@ -528,6 +538,15 @@ def judge_object(chk, c, o, answers):
             chk.violation('FluxSurfaceAdvection.step:%s-displacement' % sign,
                           'step differs from sum_j c_j S_{(i+s_j)%%nz}(theta+shift_j) by %.3g > %.3g' % (err, tol), rep)
         q = fr(zd) / fr(o['dz'])
+        near = abs(q - round(q)) <= 4 * U * max(1, abs(q))
+        if not near or s['spec_shifts'] == o['shifts'][a][b]:
+            tol2 = tol + 8 * lag_tol(o['dz'], o['z'], zd, s['spec_shifts']) * cmax \
+                + (2 * o['deg'] * cmax / (2 * math.pi / len(o['q']))) * 8 * U * max(abs(o['dtheta'][a] * x) for x in s['spec_shifts'])
+            chk.cov['max_step_spec_err_over_tol'] = max(chk.cov.get('max_step_spec_err_over_tol', 0.0), s['err_spec'] / tol2)
+            if s['err_spec'] > tol2:
+                chk.violation('FluxSurfaceAdvection.step:field-line:%s' % ('twist' if o['dtheta'][a] != 0.0 else 'no-twist'),
+                              'step differs from the degree-5 Lagrange interpolation along the field line through the foot '
+                              '(displacement %.4g cells of %d) by %.3g > %.3g' % (float(q), len(s['cs']), s['err_spec'], tol2), rep)
         if q == round(q) and o['dtheta'][a] == 0.0:
             # direct oracle: whole number of cells, no twist -> circular shift of the nodal values (the spline
             # interpolates them up to the conditioning of the collocation solve: 1e-12 * max|f| is ample)
@@ -616,7 +635,8 @@ def run():
                         bad = ''
                         break
             if bad:
-                chk.violation('_getLagrangePts(exact):outcome', bad, replay, no_input=('model answers' in bad))
+                # an exception about the Fraction stand-in means the exact run could not execute the code: the correspondence broke
+                chk.violation('_getLagrangePts(exact):outcome', bad, replay, no_input=('model answers' in bad or "'Fraction' object" in bad))
             continue
         same = False
         if isinstance(impl, str) and impl.startswith('ok') and m[0].startswith('ok'):
